@@ -138,7 +138,12 @@ func (ex *Exec) rowInvAssume(ref *RowRef, row Val, t types.Type) {
 		if r.Table != ref.Table || !types.Identical(r.rowT, t) {
 			continue
 		}
-		ex.assume(ex.rowInvEval(r, row, ref.TKey))
+		r := r
+		nm := Namer{Prefix: ref.Base + "!row", Keys: ref.Key}
+		ex.assumeSpec(func() *smt.Term {
+			// a fresh copy of the symbolic row: same leaves, no sharing with the program's copy
+			return ex.rowInvEval(r, ex.symbolic(t, nm), ref.TKey)
+		})
 	}
 }
 
